@@ -5,6 +5,7 @@ import NucsProofs.Propagators.CountEq
 import NucsProofs.Propagators.Counting
 import NucsProofs.Propagators.Dummy
 import NucsProofs.Propagators.Element
+import NucsProofs.Propagators.GccReg
 import NucsProofs.Propagators.Lex
 import NucsProofs.Propagators.MinMax
 import NucsProofs.Propagators.NoSubCycle
@@ -32,6 +33,7 @@ theorem C06_elementLiv : GroundOk .elementLiv := groundOk_elementLiv
 theorem C06_elementLic : GroundOk .elementLic := groundOk_elementLic
 theorem C06_exactlyEq : GroundOk .exactlyEq := groundOk_exactlyEq
 theorem C06_exactlyTrue : GroundOk .exactlyTrue := groundOk_exactlyTrue
+theorem C06_gcc : GroundOk .gcc := groundOk_gcc
 theorem C06_lexLeq : GroundOk .lexLeq := groundOk_lexLeq
 theorem C06_maxEq : GroundOk .maxEq := groundOk_maxEq
 theorem C06_maxLeq : GroundOk .maxLeq := groundOk_maxLeq
@@ -43,7 +45,7 @@ theorem C06_scc : GroundOk .scc := groundOk_scc
 
 /-- algorithms for which `GroundOk` is stated (Spec.lean) but not proved here: validated by the
     correspondence and the brute-force oracle only -/
-def C06_unproved : List Alg := [.gcc]
+def C06_unproved : List Alg := []
 
 /-- on an instantiated box the call fails iff the tuple violates the relation -/
 theorem C06_point_iff (a : Alg) (hs : Sound a) (hg : GroundOk a) (hw : ∀ ps t, relW a ps t → rel a ps t)
